@@ -49,6 +49,10 @@ extern int mpt_parse_format_enc(const MPT_STRUCT(parser_format) *fmt, MPT_STRUCT
 		}
 		return MPT_ERROR(MissingData);
 	}
+	/* section end detected */
+	else if (path->len && fmt->send && curr == fmt->send) {
+		return parse->curr = MPT_PARSEFLAG(SectEnd);
+	}
 	/* section start missed */
 	if (curr != fmt->sstart) {
 		if (mpt_path_addchar(path, curr) < 0) {
